@@ -50,7 +50,7 @@ AddCmt ==
        /\ (place \in {2, 3} => pos <= N)
        /\ (place = 3 => Splittable(pos))
        /\ (place = 2 => out[pos].k # "format")
-       /\ (place \in {2, 3} => ~HasEd("sent", pos))
+       /\ (place \in {2, 3} => ~HasEd("sent", pos) /\ ~HasEd("garb", pos))
        \* at most one comment found inside a statement (trailing or in-continuation)
        /\ (place \in {2, 3} => ~\E j \in 1..Len(ed) : ed[j].t = "cmt" /\ ed[j].pos = pos /\ ed[j].a \in {2, 3})
        /\ ed' = Append(ed, E("cmt", pos, place, c))
@@ -62,6 +62,7 @@ AddCpp ==
 AddGarb ==
   /\ "garb" \in PKinds /\ ~\E j \in 1..Len(ed) : ed[j].t = "garb"
   /\ \E pos \in Ch(1..N), g \in 1..NGarb, extra \in 0..2 :
+       /\ ~\E j \in 1..Len(ed) : ed[j].t = "cmt" /\ ed[j].pos = pos /\ ed[j].a \in {2, 3}
        /\ ed' = Append(ed, E("garb", pos, g, extra))
 
 AddInc ==
